@@ -45,6 +45,10 @@ def gen_history(rng, schema, n_ops, ordered=False):
             push(FO.gen_crate_op(rng, st, hostile=False))
         elif r < 0.28 and is_v2(schema):
             push(FO.gen_foreign_reorder(rng, st))
+        elif r < 0.34 and not is_v2(schema) and st.live_tracks():
+            # 1.x: lists of the other kinds (playlist, history, prepare list - only Engine writes them) that hold one of the tracks
+            # and whose id coincides with a crate's; they are not crates and what the crates contain is not affected
+            push(({"op": "foreign_rows", "t": rng.choice(st.live_tracks()), "list_id": rng.choice([1, 2, 3, 4, 5, 6])}, {"kind": "foreign_marks"}))
         elif r < 0.31 and is_v2(schema):
             # entity columns only Engine DJ writes (the membership reference that ties a parent list's entry to a child list's):
             # set by SQL on every / every other entry; what the crates contain is not affected
@@ -696,7 +700,7 @@ def metas_from_ops(ops):
             metas.append({"kind": o, "c": op["c"]})
         elif o == "remove_track":
             metas.append({"kind": o, "t": op["t"]})
-        elif o == "raw_exec":
+        elif o in ("raw_exec", "foreign_rows"):
             metas.append({"kind": "foreign_marks"})
         elif o == "foreign_reorder":
             metas.append({"kind": "foreign_reorder_entries", "c": op["c"]} if "c" in op else
